@@ -1,6 +1,3 @@
-CONSTANTS
-  SuffixUsesStaleLine = FALSE
-  PropertyOnly = TRUE
 SPECIFICATION Spec
 POSTCONDITION Accepted
 CHECK_DEADLOCK FALSE
